@@ -120,7 +120,7 @@ theorem d17_repaired : tarWalk true selfLoop 2 0 = .error .linkLoop := by decide
 /-- `fill_dir` (rdsquashfs) refuses the same image -/
 theorem d17_fill_dir_refuses : readTree selfLoop 1 0 = .error .linkLoop := by decide
 
-/-! ### D17b — shared sub-directories are expanded exponentially (recorded finding, no repair) -/
+/-! ### D17b — shared sub-directories are expanded exponentially by the walks without a visited set -/
 
 /-- `n` levels; every directory lists the next level's directory twice (hard link to a directory) -/
 def diamond (n : Nat) : DirGraph := ⟨fun r => if r < n then [r + 1, r + 1] else [], fun _ => true, fun r => r.toUInt32⟩
@@ -170,7 +170,7 @@ theorem diamond_fill (n : Nat) (hn : n < 2 ^ 32) : ∀ (k r fuel : Nat) (anc : L
       rw [Nat.pow_succ 2 (k + 1)]
       omega
 
-/-- current and repaired `fill_dir` alike: an image with `n` levels of doubly-listed directories (a few bytes per
+/-- `fill_dir` before `fixes/C05-dir-visited-set.patch`: an image with `n` levels of doubly-listed directories (a few bytes per
 level) is expanded into `2^(n+1) - 2` tree nodes -/
 theorem dag_blowup_exponential (n : Nat) (hn : n < 2 ^ 32) : readTree (diamond n) (n + 1) 0 = .ok (2 ^ (n + 1) - 2) := by
   unfold readTree
@@ -181,4 +181,74 @@ theorem dag_blowup_exponential (n : Nat) (hn : n < 2 ^ 32) : readTree (diamond n
     simp [diamond] at hx
     subst hx
     exact Nat.le_refl _
+
+/-- with the visited set the same images are refused at the first directory that is listed a second time -/
+theorem dag_blowup_repaired : readTreeV (diamond 26) 4096 28 0 = .error .linkLoop ∧
+    tarWalkV (diamond 26) 4096 28 0 = .error .linkLoop := by
+  constructor <;> decide
+
+/-! ### D26 — recursion depth of `fill_dir` = nesting depth of the image (before `fixes/C05-nesting-limit.patch`) -/
+
+/-- `n` directories nested inside each other -/
+def chain (n : Nat) : DirGraph := ⟨fun r => if r < n then [r + 1] else [], fun _ => true, fun r => r.toUInt32⟩
+
+theorem chain_fill (n : Nat) (hn : n < 2 ^ 32) : ∀ (k r fuel : Nat) (anc : List UInt32),
+    r + k = n → (∀ x ∈ anc, x.toNat ≤ r) →
+    fillDir (chain n) fuel anc r = if k < fuel then .ok k else .error .fuel := by
+  intro k
+  induction k with
+  | zero =>
+    intro r fuel anc hr _
+    cases fuel with
+    | zero => rfl
+    | succ fuel =>
+      have : ¬ r < n := by omega
+      simp [fillDir, chain, this, sumEntries]
+  | succ k ih =>
+    intro r fuel anc hr hanc
+    cases fuel with
+    | zero => simp [fillDir]
+    | succ fuel =>
+      have hlt : r < n := by omega
+      have e : (r + 1).toUInt32.toNat = r + 1 := by
+        simp [Nat.toUInt32, UInt32.toNat_ofNat']
+        omega
+      have hnot : anc.contains ((r + 1).toUInt32) = false := by
+        rw [List.contains_eq_mem]
+        simp only [decide_eq_false_iff_not]
+        intro hmem
+        have := hanc _ hmem
+        omega
+      have hsub := ih (r + 1) fuel ((r + 1).toUInt32 :: anc) (by omega) (by
+        intro x hx
+        rcases List.mem_cons.1 hx with rfl | hx
+        · omega
+        · have := hanc x hx; omega)
+      unfold fillDir
+      simp only [chain, hlt, if_true, List.any_cons, List.any_nil, hnot, Bool.or_false, Bool.false_eq_true, if_false]
+      simp only [chain] at hsub
+      simp only [sumEntries, if_true, hsub]
+      by_cases hk : k < fuel
+      · simp [hk]; omega
+      · simp [hk]
+
+/-- the walk of the unpatched tree needs one frame per directory level, whatever the depth: with `n` frames it is
+not finished on a chain of `n` directories, with `n + 1` it delivers the `n` nodes -/
+theorem d26_fill_dir_depth_unbounded (n : Nat) (hn : n < 2 ^ 32) :
+    readTree (chain n) n 0 = .error .fuel ∧ readTree (chain n) (n + 1) 0 = .ok n := by
+  unfold readTree
+  have h := fun fuel => chain_fill n hn n 0 fuel [(chain n).inum 0] (by omega) (by
+    intro x hx
+    simp [chain] at hx
+    subst hx
+    exact Nat.le_refl _)
+  constructor
+  · rw [h n]; simp
+  · rw [h (n + 1)]; simp
+
+/-- with the nesting limit a chain deeper than the limit is refused after `limit + 2` frames -/
+theorem d26_repaired : readTreeV (chain 10) 8 10 0 = .error .overflow ∧ tarWalkV (chain 10) 8 9 0 = .error .overflow ∧
+    readTreeV (chain 8) 8 10 0 = .ok 8 ∧ tarWalkV (chain 8) 8 9 0 = .ok 8 := by
+  refine ⟨?_, ?_, ?_, ?_⟩ <;> decide
+
 end Sqfs.C05.Witness
